@@ -34,6 +34,9 @@ pub struct Case {
     pub layer: Layer,
     pub len: usize,
     pub plan: WP,
+    /// further messages written on the SAME layer object afterwards (payload length, write behaviour of the stream
+    /// during that message; positions are relative to the start of that message)
+    pub then: Vec<(usize, WP)>,
 }
 
 #[derive(Default)]
@@ -80,12 +83,12 @@ impl Prop for C14 {
         let mut cs = vec![];
         // A: every payload length 0..70000 on a fully accepting stream
         for len in 0..=70000usize {
-            cs.push(Case { layer: Layer::Tpkt, len, plan: WP::All });
+            cs.push(Case { layer: Layer::Tpkt, len, plan: WP::All, then: vec![] });
         }
         for layer in [Layer::X224, Layer::Link] {
             for len in 0..=70000usize {
                 if tier == Tier::Thorough || len % 97 == 0 || BOUNDARY.contains(&len) || len <= 300 {
-                    cs.push(Case { layer, len, plan: WP::All });
+                    cs.push(Case { layer, len, plan: WP::All, then: vec![] });
                 }
             }
         }
@@ -98,7 +101,7 @@ impl Prop for C14 {
                     if len > 1000 && k < 7 && tier == Tier::Quick && layer != Layer::Tpkt {
                         continue;
                     }
-                    cs.push(Case { layer, len, plan: WP::Cap(k) });
+                    cs.push(Case { layer, len, plan: WP::Cap(k), then: vec![] });
                 }
             }
         }
@@ -122,16 +125,16 @@ impl Prop for C14 {
                         }
                     }
                     sizes.push(run);
-                    cs.push(Case { layer, len, plan: WP::Seq(sizes) });
+                    cs.push(Case { layer, len, plan: WP::Seq(sizes), then: vec![] });
                 }
             }
         }
         // D: zero-then-progress
         for layer in [Layer::Tpkt, Layer::Link, Layer::X224] {
             for len in [0usize, 1, 5, 300] {
-                cs.push(Case { layer, len, plan: WP::Seq(vec![0]) });
-                cs.push(Case { layer, len, plan: WP::Seq(vec![2, 0]) });
-                cs.push(Case { layer, len, plan: WP::Seq(vec![0, 0, 0]) });
+                cs.push(Case { layer, len, plan: WP::Seq(vec![0]), then: vec![] });
+                cs.push(Case { layer, len, plan: WP::Seq(vec![2, 0]), then: vec![] });
+                cs.push(Case { layer, len, plan: WP::Seq(vec![0, 0, 0]), then: vec![] });
             }
         }
         // E: write error injected at every byte position
@@ -146,7 +149,7 @@ impl Prop for C14 {
                 let positions: Vec<usize> = if total <= 80 { (0..total).collect() } else { vec![0, 1, 3, 4, 5, 7, total / 2, total - 2, total - 1] };
                 for pos in positions {
                     for cap in [usize::MAX, 3] {
-                        cs.push(Case { layer, len, plan: WP::ErrAt(pos, cap) });
+                        cs.push(Case { layer, len, plan: WP::ErrAt(pos, cap), then: vec![] });
                     }
                 }
             }
@@ -155,17 +158,48 @@ impl Prop for C14 {
         for layer in [Layer::Tpkt, Layer::Link, Layer::X224] {
             for len in [0usize, 1, 100] {
                 for k in [0usize, 1] {
-                    cs.push(Case { layer, len, plan: WP::Interrupted(k) });
+                    cs.push(Case { layer, len, plan: WP::Interrupted(k), then: vec![] });
                 }
             }
         }
         // G: whole conversations with a short-writing transport (end to end through OpenSSL and CredSSP)
         for nla in [1usize, 0] {
             for k in [1usize, 2, 3, 5, 7, 16, 1024] {
-                cs.push(Case { layer: Layer::Conversation, len: nla, plan: WP::Cap(k) });
+                cs.push(Case { layer: Layer::Conversation, len: nla, plan: WP::Cap(k), then: vec![] });
             }
-            cs.push(Case { layer: Layer::Conversation, len: nla, plan: WP::Seq(vec![1, 2, 3, 1, 1, 5, 7, 1, 2]) });
-            cs.push(Case { layer: Layer::Conversation, len: nla, plan: WP::Interrupted(3) });
+            cs.push(Case { layer: Layer::Conversation, len: nla, plan: WP::Seq(vec![1, 2, 3, 1, 1, 5, 7, 1, 2]), then: vec![] });
+            cs.push(Case { layer: Layer::Conversation, len: nla, plan: WP::Interrupted(3), then: vec![] });
+        }
+        // H: sequences of messages on the same layer object: whatever happened to a message (error before the
+        // first byte, in mid-frame, short writes, zero-length write, EINTR), the next one is exact again
+        let firsts = |total: usize| -> Vec<WP> {
+            let mut v = vec![WP::All, WP::ErrAt(0, usize::MAX), WP::Cap(1), WP::Seq(vec![0]), WP::Interrupted(0)];
+            for pos in [1, total / 2, total.saturating_sub(1)] {
+                if pos > 0 && pos < total {
+                    v.push(WP::ErrAt(pos, usize::MAX));
+                }
+            }
+            v
+        };
+        for layer in [Layer::Tpkt, Layer::X224, Layer::Link] {
+            for len1 in [0usize, 1, 5, 300] {
+                let total1 = reference(layer, &payload(len1)).len();
+                for p1 in firsts(total1) {
+                    for len2 in [0usize, 1, 7, 300] {
+                        let total2 = reference(layer, &payload(len2)).len();
+                        for p2 in [WP::All, WP::Cap(1), WP::ErrAt(total2 / 2, usize::MAX)] {
+                            cs.push(Case { layer, len: len1, plan: p1.clone(), then: vec![(len2, p2.clone())] });
+                            if tier == Tier::Thorough {
+                                for len3 in [0usize, 3, 200] {
+                                    for p3 in [WP::All, WP::Cap(2)] {
+                                        cs.push(Case { layer, len: len1, plan: p1.clone(), then: vec![(len2, p2.clone()), (len3, p3)] });
+                                    }
+                                }
+                            }
+                        }
+                    }
+                }
+            }
         }
         self.cases = cs;
         Ok(())
@@ -177,7 +211,7 @@ impl Prop for C14 {
         json!({"idx": idx, "case": self.cases[idx as usize]})
     }
     fn rule(&self) -> String {
-        "cases = (layer in {tpkt, x224, link}, payload length, write behaviour of the stream); lengths 0..70000 all enumerated on an accepting stream; short-write caps {1,2,3,4,5,7,8,1024} for every length <= 300 and every 16-bit boundary length; every composition of write sizes for frames <= 12 bytes; zero-length writes; an error injected at every byte position for lengths <= 64 and boundary lengths; EINTR once; plus 18 full real conversations over TLS (NLA on/off) with a transport accepting k bytes per write, k in {1,2,3,5,7,16,1024}, an irregular size sequence, and EINTR. Non-trivial: the stream deviates from accepting everything, or the length is within 8 of a 7/14/15/16-bit boundary or above the frame limit.".into()
+        "cases = (layer in {tpkt, x224, link}, payload length, write behaviour of the stream); lengths 0..70000 all enumerated on an accepting stream; short-write caps {1,2,3,4,5,7,8,1024} for every length <= 300 and every 16-bit boundary length; every composition of write sizes for frames <= 12 bytes; zero-length writes; an error injected at every byte position for lengths <= 64 and boundary lengths; EINTR once; sequences of 2 (3 in thorough) messages on the same layer object, the first one meeting an error before its first byte / after one byte / in mid-frame / on its last byte, one-byte writes, a zero-length write or EINTR, the later ones judged like a first message; plus 18 full real conversations over TLS (NLA on/off) with a transport accepting k bytes per write, k in {1,2,3,5,7,16,1024}, an irregular size sequence, and EINTR. Non-trivial: the stream deviates from accepting everything, or the length is within 8 of a 7/14/15/16-bit boundary or above the frame limit.".into()
     }
     fn assumptions(&self) -> Vec<String> {
         vec![
@@ -212,57 +246,89 @@ impl Prop for C14 {
                 },
             };
         }
-        let p = payload(c.len);
         let link = MemLink::scripted(&[]);
-        link.sh.borrow_mut().write_plan = match &c.plan {
-            WP::All => WritePlan::All,
-            WP::Cap(k) => WritePlan::Cap(*k),
-            WP::Seq(v) => WritePlan::Seq(v.clone()),
-            WP::ErrAt(pos, cap) => WritePlan::ErrAt { pos: *pos, cap: *cap },
-            WP::Interrupted(k) => WritePlan::InterruptedAt(*k),
-        };
         let sh = link.sh.clone();
+        enum Obj {
+            L(Link<MemLink>),
+            T(tpkt::Client<MemLink>),
+            X(x224::Client<MemLink>),
+        }
         let l = Link::new(Stream::Raw(link));
-        let res = match c.layer {
-            Layer::Link => {
-                let mut l = l;
-                l.write(&p.clone()).is_ok()
-            }
-            Layer::Tpkt => tpkt::Client::new(l).write(p.clone()).is_ok(),
-            Layer::X224 => x224::Client::verif_new_raw(tpkt::Client::new(l), x224::Protocols::ProtocolSSL).write(p.clone()).is_ok(),
+        let mut obj = match c.layer {
+            Layer::Link => Obj::L(l),
+            Layer::Tpkt => Obj::T(tpkt::Client::new(l)),
+            Layer::X224 => Obj::X(x224::Client::verif_new_raw(tpkt::Client::new(l), x224::Protocols::ProtocolSSL)),
             Layer::Conversation => unreachable!(),
         };
-        let delivered = sh.borrow().from_client.clone();
-        let near = |b: usize| c.len + 8 >= b && c.len <= b + 8;
-        let nontrivial = !matches!(c.plan, WP::All) || near(127) || near(16383) || near(32767) || near(65535) || c.len > max_len(c.layer);
-        if c.len > max_len(c.layer) {
-            if res {
-                return Outcome::fail("oversize", "oversize-message-accepted", format!("{} byte message accepted by {:?}; {} bytes emitted, header {:02x?}", c.len, c.layer, delivered.len(), &delivered[..delivered.len().min(4)]));
+        let mut msgs = vec![(c.len, c.plan.clone())];
+        msgs.extend(c.then.iter().cloned());
+        let n_msgs = msgs.len();
+        let mut last = Outcome::pass("empty", false);
+        for (mi, (len, plan)) in msgs.into_iter().enumerate() {
+            let p = payload(len);
+            let start = sh.borrow().from_client.len();
+            {
+                let mut shm = sh.borrow_mut();
+                shm.write_seq_pos = 0;
+                shm.write_calls = 0;
+                shm.write_plan = match &plan {
+                    WP::All => WritePlan::All,
+                    WP::Cap(k) => WritePlan::Cap(*k),
+                    WP::Seq(v) => WritePlan::Seq(v.clone()),
+                    WP::ErrAt(pos, cap) => WritePlan::ErrAt { pos: start + *pos, cap: *cap },
+                    WP::Interrupted(k) => WritePlan::InterruptedAt(*k),
+                };
             }
-            if !delivered.is_empty() {
-                return Outcome::fail("oversize", "oversize-message-partially-sent", format!("{} bytes emitted for a refused message", delivered.len()));
+            let res = match &mut obj {
+                Obj::L(l) => l.write(&p.clone()).is_ok(),
+                Obj::T(t) => t.write(p.clone()).is_ok(),
+                Obj::X(x) => x.write(p.clone()).is_ok(),
+            };
+            let o = judge(c.layer, len, &plan, res, &sh.borrow().from_client[start..], &p);
+            if o.violation.is_some() {
+                if mi == 0 {
+                    return o;
+                }
+                let v = o.violation.unwrap();
+                return Outcome::fail("mismatch", format!("after-earlier-message:{}", v.sig), format!("message #{} on the same {:?} object (earlier: {:?}): {}", mi + 1, c.layer, c.plan, v.detail));
             }
-            return Outcome::pass("refused-oversize", true);
+            last = o;
         }
-        let want = reference(c.layer, &p);
+        if n_msgs > 1 {
+            last.class = format!("seq{}:{}", n_msgs, last.class);
+            last.nontrivial = true;
+        }
+        last
+    }
+}
+
+fn judge(layer: Layer, len: usize, plan: &WP, res: bool, delivered: &[u8], p: &[u8]) -> Outcome {
+    let near = |b: usize| len + 8 >= b && len <= b + 8;
+    let nontrivial = !matches!(plan, WP::All) || near(127) || near(16383) || near(32767) || near(65535) || len > max_len(layer);
+    if len > max_len(layer) {
         if res {
-            if delivered != want {
-                let sig = if delivered.len() < want.len() && want.starts_with(&delivered) { "ok-but-bytes-lost" } else { "ok-but-wrong-bytes" };
-                return Outcome::fail("mismatch", sig, format!("write returned Ok; {} of {} frame bytes reached the stream (plan {:?})", delivered.len(), want.len(), c.plan));
-            }
-            if matches!(c.plan, WP::ErrAt(..)) {
-                // the whole frame cannot have been delivered past an injected error unless pos >= total
-            }
-            Outcome::pass("ok-complete", nontrivial)
-        } else {
-            if !want.starts_with(&delivered) {
-                return Outcome::fail("mismatch", "err-with-non-prefix", format!("write failed and the {} delivered bytes are not a prefix of the frame", delivered.len()));
-            }
-            match c.plan {
-                WP::All | WP::Cap(_) => Outcome::fail("mismatch", "spurious-error", format!("write failed although the stream makes progress (plan {:?}, len {})", c.plan, c.len)),
-                WP::Seq(ref v) if !v.contains(&0) => Outcome::fail("mismatch", "spurious-error", format!("write failed although the stream makes progress (plan {:?}, len {})", c.plan, c.len)),
-                _ => Outcome::pass("err-prefix", nontrivial),
-            }
+            return Outcome::fail("oversize", "oversize-message-accepted", format!("{} byte message accepted by {:?}; {} bytes emitted, header {:02x?}", len, layer, delivered.len(), &delivered[..delivered.len().min(4)]));
+        }
+        if !delivered.is_empty() {
+            return Outcome::fail("oversize", "oversize-message-partially-sent", format!("{} bytes emitted for a refused message", delivered.len()));
+        }
+        return Outcome::pass("refused-oversize", true);
+    }
+    let want = reference(layer, p);
+    if res {
+        if delivered != &want[..] {
+            let sig = if delivered.len() < want.len() && want.starts_with(delivered) { "ok-but-bytes-lost" } else { "ok-but-wrong-bytes" };
+            return Outcome::fail("mismatch", sig, format!("write returned Ok; {} bytes reached the stream for a frame of {} (plan {:?})", delivered.len(), want.len(), plan));
+        }
+        Outcome::pass("ok-complete", nontrivial)
+    } else {
+        if !want.starts_with(delivered) {
+            return Outcome::fail("mismatch", "err-with-non-prefix", format!("write failed and the {} delivered bytes are not a prefix of the frame", delivered.len()));
+        }
+        match plan {
+            WP::All | WP::Cap(_) => Outcome::fail("mismatch", "spurious-error", format!("write failed although the stream makes progress (plan {:?}, len {})", plan, len)),
+            WP::Seq(v) if !v.contains(&0) => Outcome::fail("mismatch", "spurious-error", format!("write failed although the stream makes progress (plan {:?}, len {})", plan, len)),
+            _ => Outcome::pass("err-prefix", nontrivial),
         }
     }
 }
